@@ -45,6 +45,11 @@ type tPlan struct {
 	Lagging []int    `json:"lagging,omitempty"`
 	// LagPropose: proposers need not have caught up with the board before they propose
 	LagPropose bool `json:"lag_propose,omitempty"`
+	// Hiccup = k > 0 (C06): while the k-th single-message poll of the case is handled, the board refuses every write of
+	// that node. If the message is the one that completes the threshold, the node's broadcast of the reconstructed
+	// signatures fails and with it the whole message: the contribution is not counted on that node, which keeps
+	// collecting - the next contribution completes the threshold again
+	Hiccup int `json:"hiccup,omitempty"`
 }
 
 // nodeModel is the reference counter for one node.
@@ -57,22 +62,23 @@ type nodeModel struct {
 }
 
 type tObs struct {
-	Plan       tPlan
-	Round      string
-	GroupKey   []byte
-	BatchIDs   []string
-	Refs       [][]refMsg
-	Correct    []map[int]bool // per batch: participants whose genuine answer is on the board
-	Accepted   []bool         // per batch: the proposal was accepted (by the nodes' common history)
-	Cancelled  []bool         // per batch: cancelled by more than n-t failure reports
-	NodeSigs   []map[string]map[string][]fsmtypes.ReconstructedSignature
-	States     []string
-	History    []string
-	Err        error
-	Viol       *viol
-	models     []*nodeModel
-	StaleSeen  bool // a stale or repeated contribution was processed before the t-th genuine one of some batch
-	LateToOpen bool // a late answer to a finished batch was delivered while a later batch was open
+	Plan              tPlan
+	Round             string
+	GroupKey          []byte
+	BatchIDs          []string
+	Refs              [][]refMsg
+	Correct           []map[int]bool // per batch: participants whose genuine answer is on the board
+	Accepted          []bool         // per batch: the proposal was accepted (by the nodes' common history)
+	Cancelled         []bool         // per batch: cancelled by more than n-t failure reports
+	NodeSigs          []map[string]map[string][]fsmtypes.ReconstructedSignature
+	States            []string
+	History           []string
+	Err               error
+	Viol              *viol
+	models            []*nodeModel
+	StaleSeen         bool // a stale or repeated contribution was processed before the t-th genuine one of some batch
+	LateToOpen        bool // a late answer to a finished batch was delivered while a later batch was open
+	HiccupAtThreshold bool // the board refused a node's writes exactly while it handled the contribution that completed the threshold
 }
 
 // tasksNameMessages: the proposal expands into at least one message and every range lies within the baked list
@@ -137,12 +143,28 @@ func runSignTape(fx *world.Fixture, p tPlan, root string, stepCheck bool) *tObs 
 	}
 	hist := func(f string, a ...any) { obs.History = append(obs.History, fmt.Sprintf(f, a...)) }
 
+	polls, completing := 0, 0
 	// pollOne delivers exactly one message to node j and compares the node with its model.
 	pollOne := func(j int) {
 		k := w.Nodes[j].View.Watermark()
 		m := w.Board.From(k)[0]
 		logBefore := w.Nodes[j].Log.Len()
+		polls++
+		hiccup := p.Hiccup > 0 && polls == p.Hiccup
+		if p.Hiccup < 0 && m.DkgRoundID == fx.Round && m.Event == "event_signing_partial_sign_received" {
+			// Hiccup = -k: the k-th poll (of any node) that completes a threshold according to the reference counter
+			var r requests.SigningProposalBatchPartialSignRequests
+			md0 := models[j]
+			if sd, ok := nameIdx[m.SenderAddr]; ok && json.Unmarshal(m.Data, &r) == nil && md0.State == "collecting" && r.BatchID == md0.Batch && r.ParticipantId == sd && !md0.A[sd] && !md0.F[sd] && len(md0.A)+1 == p.T {
+				completing++
+				hiccup = completing == -p.Hiccup
+			}
+		}
+		if hiccup {
+			w.Nodes[j].View.FailSends = 1 << 20
+		}
 		w.Poll(j, 1)
+		w.Nodes[j].View.FailSends = 0
 		if obs.Viol != nil {
 			return
 		}
@@ -176,7 +198,11 @@ func runSignTape(fx *world.Fixture, p tPlan, root string, stepCheck bool) *tObs 
 				var r requests.SigningProposalBatchPartialSignRequests
 				if json.Unmarshal(m.Data, &r) == nil {
 					counts := md.State == "collecting" && r.BatchID == md.Batch && r.ParticipantId == sender && !md.A[sender] && !md.F[sender]
-					if counts {
+					if counts && hiccup && len(md.A)+1 == p.T {
+						// reconstruction starts, its broadcast fails, the message fails as a whole: nothing is counted
+						expectRecon = true
+						obs.HiccupAtThreshold = true
+					} else if counts {
 						md.A[sender] = true
 						if len(md.A) == p.T {
 							expectRecon = true
